@@ -82,6 +82,37 @@ HISTORIES = {
         ("deliver", "b", 1, True, True),
         ("expunge", "A"), ("noop", "A"), ("noop", "B"),
     ],
+    # two separate expunges of the message at the same position, and a flag going
+    # X -> Y -> X, while the other session stays quiet: every queued notification
+    # matters even when it is textually identical to an earlier one
+    "identical_notifications_while_quiet": [
+        ("append", "A", "inbox", [], 0), ("append", "A", "inbox", [], 0),
+        ("append", "A", "inbox", [], 0), ("append", "A", "inbox", [], 0),
+        ("select", "A", "inbox"), ("select", "B", "inbox"), ("noop", "A"),
+        ("store", "B", [[2, 2]], "+", ["Deleted"], False, False), ("expunge", "B"),
+        ("store", "B", [[2, 2]], "+", ["Deleted"], False, False), ("expunge", "B"),
+        ("store", "B", [[1, 1]], "+", ["Flagged"], False, False),
+        ("store", "B", [[1, 1]], "-", ["Flagged"], False, False),
+        ("store", "B", [[1, 1]], "+", ["Flagged"], False, False),
+        ("noop", "A"), ("fetch", "A", [[1, S]], "uidflags", False),
+        ("move", "B", [[1, 1]], "b", False), ("move", "B", [[1, 1]], "b", False),
+        ("check", "A"), ("fetch", "A", [[1, S]], "uidflags", True),
+    ],
+    # a gappy folder is packed by the management task (pack threshold lowered by
+    # the world options); UIDs must keep naming the same messages for the session
+    # that stayed selected and for a new one
+    "pack_then_uid_probe": [
+        ("append", "A", "b", [], 0), ("append", "A", "b", ["Seen"], 0), ("append", "A", "b", [], 0),
+        ("append", "A", "b", ["Flagged"], 0), ("append", "A", "b", [], 0), ("append", "A", "b", [], 0),
+        ("select", "A", "b"),
+        ("store", "A", [[1, 1], [3, 4]], "+", ["Deleted"], False, False), ("expunge", "A"),
+        ("poll",), ("poll",),
+        ("fetch", "A", [[1, S]], "peek", True), ("fetch", "A", [[1, S]], "peek", False),
+        ("select", "B", "b"), ("fetch", "B", [[2, 6]], "peek", True),
+        ("search", "A", "ALL", True),
+        ("store", "A", [[5, 5]], "+", ["Deleted"], False, True), ("expunge", "A"),
+        ("append", "B", "b", [], 0), ("poll",), ("fetch", "B", [[1, S]], "peek", True),
+    ],
     # COPY of out-of-range numbers must be refused promptly and leave the stream usable
     "out_of_range_answered": [
         ("append", "A", "inbox", [], 0),
@@ -112,7 +143,7 @@ def run_all(names=None):
     traces = []
     for n in names:
         steps = [("create", "A0", "b")] + HISTORIES[n]
-        traces.append(mailgen.execute(steps, seed=1))
+        traces.append(mailgen.execute(steps, seed=1, pack_limit=3, pack_ratio=0.75))
     tmp = tempfile.mkdtemp(prefix="verif-st-")
     try:
         viols, done, steps, errs = mailfam.validate(traces, tmp, chunks=4)
